@@ -154,8 +154,12 @@ func (v *VerifSession) StateTimer() interface{}      { return v.s.stateTimer }
 func (v *VerifSession) PeerTimer() interface{}       { return v.s.peerTimer }
 func (v *VerifSession) SessionTime() *VerifTimeRange { return v.s.SessionTime }
 
-// RunLoop is s.run(), for the few real-loop runs only.
-func (v *VerifSession) RunLoop() { v.s.run() }
+// RunLoop is s.run(), for the few real-loop runs only. The event channel is unbuffered there, as
+// newSession creates it (the buffer VerifNewSession adds is for the synchronous harness only).
+func (v *VerifSession) RunLoop() {
+	v.s.sessionEvent = make(chan internal.Event)
+	v.s.run()
+}
 
 // ConnectAsync is s.connect, through the admin channel of a running loop.
 func (v *VerifSession) ConnectAsync(in <-chan *bytes.Buffer, out chan []byte) error {
